@@ -97,3 +97,126 @@ def expectedFirst100 (h : Adts) : Aac.Info :=
     adif := false }
 
 end Mutagen.Spec.Aac
+
+/-! ## ADIF (ISO/IEC 13818-7 adif_header(), program_config_element()), most significant bit first -/
+namespace Mutagen.Spec.Aac
+open Mutagen Mutagen.Info
+
+/-- an optional field behind its "present" flag -/
+def optField (w : Nat) : Option Nat → List Bool
+  | none => natToBits 1 0
+  | some v => natToBits 1 1 ++ natToBits w v
+
+def optFieldOK (w : Nat) : Option Nat → Prop
+  | none => True
+  | some v => v < 2 ^ w
+instance (w : Nat) (o : Option Nat) : Decidable (optFieldOK w o) := by cases o <;> simp only [optFieldOK] <;> infer_instance
+
+/-- byte_alignment(): zero bits up to the next byte boundary, `pos` bits behind a byte boundary -/
+def alignPad (pos : Nat) : List Bool := List.replicate ((8 - pos % 8) % 8) false
+
+/-- a front / side / back channel element: is_cpe, tag_select -/
+structure Elem where
+  isCpe : Nat
+  tag : Nat
+
+def elemBits : List Elem → List Bool
+  | [] => []
+  | e :: es => natToBits 1 e.isCpe ++ (natToBits 4 e.tag ++ elemBits es)
+
+def tagBits : List Nat → List Bool
+  | [] => []
+  | t :: ts => natToBits 4 t ++ tagBits ts
+
+/-- valid_cc elements: cc_element_is_ind_sw, tag_select -/
+def ccBits : List (Nat × Nat) → List Bool
+  | [] => []
+  | c :: cs => natToBits 1 c.1 ++ (natToBits 4 c.2 ++ ccBits cs)
+
+structure Pce where
+  tag : Nat
+  objectType : Nat
+  sfIndex : Nat
+  front : List Elem
+  side : List Elem
+  back : List Elem
+  lfe : List Nat
+  assoc : List Nat
+  cc : List (Nat × Nat)
+  monoMixdown : Option Nat
+  stereoMixdown : Option Nat
+  /-- matrix_mixdown_idx (2) + pseudo_surround_enable (1) -/
+  matrixMixdown : Option Nat
+  comment : Bytes
+
+def Pce.OK (p : Pce) : Prop :=
+  p.tag < 2 ^ 4 ∧ p.objectType < 2 ^ 2 ∧ p.sfIndex < 13 ∧ p.front.length < 2 ^ 4 ∧ p.side.length < 2 ^ 4 ∧ p.back.length < 2 ^ 4 ∧
+  p.lfe.length < 2 ^ 2 ∧ p.assoc.length < 2 ^ 3 ∧ p.cc.length < 2 ^ 4 ∧
+  (∀ e ∈ p.front ++ (p.side ++ p.back), e.isCpe < 2 ∧ e.tag < 2 ^ 4) ∧ (∀ t ∈ p.lfe, t < 2 ^ 4) ∧ (∀ t ∈ p.assoc, t < 2 ^ 4) ∧
+  (∀ c ∈ p.cc, c.1 < 2 ∧ c.2 < 2 ^ 4) ∧ optFieldOK 4 p.monoMixdown ∧ optFieldOK 4 p.stereoMixdown ∧ optFieldOK 3 p.matrixMixdown ∧
+  p.comment.length < 2 ^ 8
+
+instance (p : Pce) : Decidable p.OK := by unfold Pce.OK; infer_instance
+
+def Pce.elems (p : Pce) : List Elem := p.front ++ (p.side ++ p.back)
+
+/-- everything in front of byte_alignment() -/
+def Pce.fixedBits (p : Pce) : List Bool :=
+  natToBits 4 p.tag ++ (natToBits 2 p.objectType ++ (natToBits 4 p.sfIndex ++ (natToBits 4 p.front.length ++
+    (natToBits 4 p.side.length ++ (natToBits 4 p.back.length ++ (natToBits 2 p.lfe.length ++ (natToBits 3 p.assoc.length ++
+    (natToBits 4 p.cc.length ++ (optField 4 p.monoMixdown ++ (optField 4 p.stereoMixdown ++ (optField 3 p.matrixMixdown ++
+    (elemBits p.elems ++ (tagBits p.lfe ++ (tagBits p.assoc ++ ccBits p.cc))))))))))))))
+
+/-- program_config_element() starting `pos` bits behind a byte boundary -/
+def Pce.bits (pos : Nat) (p : Pce) : List Bool :=
+  p.fixedBits ++ (alignPad (pos + p.fixedBits.length) ++ (natToBits 8 p.comment.length ++ bytesToBits p.comment))
+
+/-- channels of a configuration: one per single element, two per pair, one per LFE -/
+def Pce.channels (p : Pce) : Nat := (p.elems.map fun e => 1 + e.isCpe).sum + p.lfe.length
+
+structure Adif where
+  copyrightId : Option Nat
+  originalCopy : Nat
+  home : Nat
+  /-- 0 = constant rate (buffer fullness in front of every program config element), 1 = variable rate -/
+  bitstreamType : Nat
+  bitrate : Nat
+  firstFullness : Nat
+  first : Pce
+  /-- further program config elements with their buffer fullness -/
+  more : List (Nat × Pce)
+  payload : Bytes
+
+def Adif.OK (h : Adif) : Prop :=
+  optFieldOK 72 h.copyrightId ∧ h.originalCopy < 2 ∧ h.home < 2 ∧ h.bitstreamType < 2 ∧ h.bitrate < 2 ^ 23 ∧
+  h.firstFullness < 2 ^ 20 ∧ h.first.OK ∧ h.more.length < 2 ^ 4 ∧ ∀ x ∈ h.more, x.1 < 2 ^ 20 ∧ x.2.OK
+
+instance (h : Adif) : Decidable h.OK := by unfold Adif.OK; infer_instance
+
+def fullnessBits (bitstreamType fullness : Nat) : List Bool := if bitstreamType = 0 then natToBits 20 fullness else []
+
+/-- the further program config elements, the first one starting `pos` bits behind a byte boundary -/
+def morePceBits (bitstreamType : Nat) : Nat → List (Nat × Pce) → List Bool
+  | _, [] => []
+  | pos, x :: xs =>
+    let b := fullnessBits bitstreamType x.1 ++ x.2.bits (pos + (fullnessBits bitstreamType x.1).length)
+    b ++ morePceBits bitstreamType (pos + b.length) xs
+
+def Adif.headBits (h : Adif) : List Bool :=
+  optField 72 h.copyrightId ++ (natToBits 1 h.originalCopy ++ (natToBits 1 h.home ++ (natToBits 1 h.bitstreamType ++
+    (natToBits 23 h.bitrate ++ (natToBits 4 h.more.length ++ fullnessBits h.bitstreamType h.firstFullness)))))
+
+def Adif.bits (h : Adif) : List Bool :=
+  let b1 := h.headBits ++ h.first.bits h.headBits.length
+  b1 ++ morePceBits h.bitstreamType b1.length h.more
+
+def Adif.build (h : Adif) : Bytes :=
+  [0x41, 0x44, 0x49, 0x46] ++ (bitsToBytes (h.bits ++ alignPad h.bits.length) ++ h.payload)
+
+/-- rate and channels of the first program config element, the bit rate field, and as `length` mutagen's documented
+guess: the bits behind the header over the bit rate -/
+def Adif.expected (h : Adif) : Aac.Info :=
+  { channels := h.first.channels, sampleRate := Spec.Tables.aacFreqs.getD h.first.sfIndex 0, bitrate := ⟨h.bitrate, 1⟩,
+    length := if h.bitrate ≠ 0 then ⟨8 * (h.payload.length : Int), h.bitrate⟩ else ⟨0, 1⟩, adif := true }
+
+end Mutagen.Spec.Aac
